@@ -66,6 +66,11 @@ check("C06", "exploration",
       TB + " The snapshot is generic (reflection), skipping only channels, funcs, sync primitives and foreign objects.",
       "deterministic simulation with fault injection: guaranteed-detectable corruptions of captured datagrams injected at quiescence, deep-state snapshot comparison", "DESIGN.md 8/C06")
 
+check("C14", "exploration",
+      "Reduced strength, stated plainly: seeded free-running workloads (no driver serialisation) over all supported public methods of sessions and listeners with traffic under faults on the fake clock, binary built with -race at GOMAXPROCS=16; the Go race detector is the oracle. The seed fixes workload, configuration and fault rates but not the interleaving, because a serialising driver (synctest.Wait between steps) totally orders steps by happens-before and blinds the detector.",
+      "Trusted base: the Go race detector (happens-before), testing/synctest fake clock. Not a seeded schedule search: interleavings are the runtime's. The in-memory transport adds happens-before edges between sender and receiver goroutines.",
+      "simulated workloads under the Go race detector (free-running mode of the simulator; interleaving not seeded)", "DESIGN.md 8/C14")
+
 NOTYET = "check not built yet in this session (work in progress; see DESIGN.md section 8 for the design)"
 for p in props:
     if p["id"] not in CHECKS:
